@@ -217,6 +217,28 @@ theorem closure_complete (d : Deps) (S : List Node) {x : Node} (r : Reach d S x)
   | base hx => exact h.1 _ hx
   | step _ hx ih => exact h.2 _ ih _ hx
 
+/-- … and nothing else: every location the worklist loop returns is reachable. -/
+theorem bfs_sound (d : Deps) (S : List Node) : ∀ (f : Nat) (proc cur : List Node),
+    (∀ x ∈ proc, Reach d S x) → (∀ x ∈ cur, x ∈ proc) → ∀ x ∈ bfs d f proc cur, Reach d S x := by
+  intro f
+  induction f with
+  | zero => intro proc cur hp _ x hx; exact hp x hx
+  | succ f ih =>
+    intro proc cur hp hc x hx
+    simp only [bfs] at hx
+    split at hx
+    · exact hp x hx
+    · refine ih _ _ ?_ (fun y hy => List.mem_append.mpr (Or.inr hy)) x hx
+      intro y hy
+      rcases List.mem_append.mp hy with hy | hy
+      · exact hp y hy
+      · rw [mem_dedup, List.mem_filter] at hy
+        obtain ⟨n, hn, hyn⟩ := (mem_succs d y cur).mp hy.1
+        exact .step (hp _ (hc _ hn)) hyn
+
+theorem closure_sound (d : Deps) (S : List Node) {x : Node} (h : x ∈ closure d S) : Reach d S x :=
+  bfs_sound d S _ S S (fun _ hx => .base hx) (fun _ hx => hx) x h
+
 theorem mem_targetsOf (t : Target) : ∀ l : List Node, t ∈ targetsOf l ↔ Node.tgt t ∈ l
   | [] => by simp [targetsOf]
   | .tgt u :: rest => by
